@@ -10,7 +10,9 @@ C01CtxText == "(def x 10) (def f (fn [x & y] (trace! (list :f x y)) (if x (first
 C01CtxForms == ReadAll(C01CtxText)
 
 C01G == Grammar(
-  <<"0", "1", "nil", "false", "\"\"", "()", "x", "y", "(g)", "(do)", "(f)">>,
+  <<"0", "1", "nil", "false", "\"\"", "()", "x", "y", "(g)", "(do)", "(f)",
+    \* functions without a body: nil when the arguments fit, an error when one is missing
+    "((fn []))", "((fn [y]))">>,
   <<"(trace! _1)", "(def x _1)", "(def y _1)", "(quote _1)", "(f _1)", "(fn [y] _1)", "((fn [] _1))",
     \* a closure made in a let, then a let in TAIL position of that let rebinding / shadowing what the closure reads
     "(let [y (fn [] x)] (let [x _1] (list (y) x)))", "(let [x 1 y (fn [] x)] (if true (let [x _1] (list (y) x))))",
@@ -19,7 +21,11 @@ C01G == Grammar(
     \* two results derived from one list by builtin calls, and the list itself
     "(let [y (quote (_1 2 3))] (list (concat y (list 1)) (concat y (list 2)) (cons 0 y) y))",
     \* a call of something that is not a function, in tail position of a body
-    "(do x (0 _1))">>,
+    "(do x (0 _1))",
+    \* statements that are vector / map literals: their elements are evaluated, in order, for effect
+    "(do [(trace! 1) _1] x)", "((fn [] {:a (trace! _1)} x))", "(let [y 1] [(trace! y)] _1)",
+    \* a body-less function called with too few arguments: the operand is evaluated, then the call fails
+    "((fn [x y]) _1)">>,
   <<"(if _1 _2)", "(do _1 _2)", "(let [x _1] _2)", "(let [y _1] _2)", "((fn [y] _2) _1)",
     "((fn [& y] _2) _1)", "(+ _1 _2)", "(list _1 _2)", "(f _1 _2)", "(_1 _2)">>,
   <<"(if _1 _2 _3)", "(let [x _1 y _2] _3)", "(let [x _1] _2 _3)", "((fn [x y] _3) _1 _2)",
